@@ -76,6 +76,7 @@ type kase struct {
 	Fork   string   `json:"fork"`
 	Entry  string   `json:"entry"`          // call | static | create | precompile | probe | bomb
 	Self   string   `json:"self,omitempty"` // "" = plain contract address, "miner" = account of a genesis validator
+	Bal    bool     `json:"bal,omitempty"`  // give the contract a balance of 100 coins (operations that move value)
 	Code   string   `json:"code,omitempty"` // hex: runtime code (call/static) or init code (create)
 	Input  string   `json:"input,omitempty"`
 	Gas    uint64   `json:"gas"`
@@ -206,7 +207,9 @@ func freshState(k *kase) *account.AccountDB {
 	if k.Entry == "call" || k.Entry == "static" {
 		x := target(k.Self)
 		st.SetCode(x, unhex(k.Code))
-		st.SetBalance(x, new(big.Int).Mul(big.NewInt(100), one18))
+		if k.Bal {
+			st.SetBalance(x, new(big.Int).Mul(big.NewInt(100), one18))
+		}
 	}
 	return st
 }
@@ -255,7 +258,7 @@ func execute(k *kase) obs {
 	// the root of the prepared state depends only on (entry kind, address, code); it is hashed once per such key
 	rk := k.Entry
 	if k.Entry != "create" {
-		rk = "x|" + k.Self + "|" + k.Code
+		rk = fmt.Sprintf("x|%s|%v|%s", k.Self, k.Bal, k.Code)
 	}
 	if r0, ok := root0Cache[rk]; ok {
 		o.Root0 = r0
@@ -306,12 +309,63 @@ func execute(k *kase) obs {
 	return o
 }
 
-func try(f func()) (bool, string, string) {
-	p, v, site := fw.Try(f)
-	if !p {
-		return false, "", ""
+// try converts a panic into an observation.  The site is the function the interpreter
+// loop called (the opcode handler or gas function: the frame directly above
+// EVMInterpreter.Run), falling back to the first repository frame below the panic.
+func try(f func()) (panicked bool, val string, site string) {
+	defer func() {
+		if r := recover(); r != nil {
+			st := debug.Stack()
+			panicked, val = true, fmt.Sprint(r)
+			site = handlerSite(st)
+			if site == "" {
+				site = shortSite(fw.PanicSite(st))
+			}
+		}
+	}()
+	f()
+	return
+}
+
+func handlerSite(stack []byte) string {
+	lines := strings.Split(string(stack), "\n")
+	seenPanic := false
+	prev := ""
+	for _, l := range lines {
+		if strings.HasPrefix(l, "panic(") {
+			seenPanic = true
+			continue
+		}
+		if !seenPanic || strings.HasPrefix(l, "\t") || l == "" {
+			continue
+		}
+		fn := l
+		if k := strings.LastIndex(fn, "("); k > 0 {
+			fn = fn[:k]
+		}
+		if strings.HasSuffix(fn, "vm.(*EVMInterpreter).Run") {
+			if prev == "" || strings.HasPrefix(prev, "runtime.") {
+				return "vm.(*EVMInterpreter).Run"
+			}
+			s := shortSite(prev)
+			// closures of table constructors: vm.makeLog.func1 -> vm.makeLog
+			for {
+				i := strings.LastIndex(s, ".")
+				if i < 0 {
+					break
+				}
+				t := s[i+1:]
+				if strings.HasPrefix(t, "func") && strings.Trim(t[4:], "0123456789") == "" {
+					s = s[:i]
+					continue
+				}
+				break
+			}
+			return s
+		}
+		prev = fn
 	}
-	return true, fmt.Sprint(v), shortSite(site)
+	return ""
 }
 
 func shortSite(s string) string {
@@ -976,6 +1030,9 @@ func argsNote(name string, args []*big.Int, mem32 bool) string {
 	return sb.String()
 }
 
+var movesValue = map[vm.OpCode]bool{vm.CALL: true, vm.CALLCODE: true, vm.CREATE: true, vm.CREATE2: true, vm.SELFDESTRUCT: true,
+	vm.AUTHCALL: true, vm.STAKE: true, vm.UNSTAKE: true, vm.UNSTAKEALL: true, vm.BALANCE: true, vm.SELFBALANCE: true}
+
 func (r *runner) partOps() {
 	stakeFamily := map[vm.OpCode]bool{vm.STAKE: true, vm.UNSTAKE: true, vm.GETSTAKE: true, vm.UNSTAKEALL: true, vm.STAKENUM: true}
 	for _, f := range []string{forkA, forkB} {
@@ -1008,12 +1065,18 @@ func (r *runner) partOps() {
 				for _, mem32 := range []bool{false, true} {
 					for _, self := range selfs {
 						for _, e := range entries {
+							if !r.c.Thorough() {
+								// quick: all-on table with (Call, empty), (Call, 32 B), (StaticCall, 32 B); pre-P026 table with (Call, 32 B)
+								if (f == forkB && (e != "call" || !mem32)) || (e == "static" && !mem32) {
+									continue
+								}
+							}
 							if r.c.Expired() {
 								r.stop = true
 								return false
 							}
 							code := sandwich(oi, args, mem32, nil)
-							k := &kase{Part: "op", Fork: f, Entry: e, Self: self, Code: hx(code), Gas: 10000000,
+							k := &kase{Part: "op", Fork: f, Entry: e, Self: self, Bal: movesValue[oi.Op], Code: hx(code), Gas: 10000000,
 								Expect: "sandwich", Op: int(oi.Op), NArgs: len(args), Note: argsNote(oi.Name, args, mem32)}
 							r.run(k)
 							r.nontriv++
@@ -1094,6 +1157,9 @@ func (r *runner) authorizedAuthCall(f string) {
 		}
 	}
 	set := bset5()
+	if !r.c.Thorough() {
+		set = bset3()
+	}
 	pfx := append(append([]byte{}, prefix...), byte(vm.POP))
 	tuples(set, oi.Pops, func(a []*big.Int) bool {
 		if !r.mine() {
@@ -1101,7 +1167,7 @@ func (r *runner) authorizedAuthCall(f string) {
 		}
 		args := append([]*big.Int(nil), a...)
 		code := sandwich(oi, args, false, pfx)
-		k := &kase{Part: "op", Fork: f, Entry: "call", Code: hx(code), Gas: 10000000, Expect: "sandwich-authorized",
+		k := &kase{Part: "op", Fork: f, Entry: "call", Code: hx(code), Gas: 10000000, Bal: true, Expect: "sandwich-authorized",
 			Op: int(oi.Op), NArgs: len(args), Note: "authorized " + argsNote(oi.Name, args, false)}
 		r.run(k)
 		r.nontriv++
@@ -1284,7 +1350,7 @@ func (r *runner) partCreate() {
 						args = append(args, big.NewInt(7))
 					}
 					code := sandwich(oi, args, false, pre)
-					r.run(&kase{Part: "create", Fork: f, Entry: "call", Code: hx(code), Gas: g, Expect: "sandwich-prefixed", Op: int(op),
+					r.run(&kase{Part: "create", Fork: f, Entry: "call", Bal: true, Code: hx(code), Gas: g, Expect: "sandwich-prefixed", Op: int(op),
 						NArgs: len(args), Note: fmt.Sprintf("%s of init code %x", op, init)})
 					r.nontriv++
 				}
@@ -1342,7 +1408,7 @@ func (r *runner) partCreate() {
 			if !r.mine() {
 				continue
 			}
-			r.run(&kase{Part: "create", Fork: f, Entry: "call", Code: hx(code), Gas: g, Expect: "inner-create-value", Op: int(vm.CREATE),
+			r.run(&kase{Part: "create", Fork: f, Entry: "call", Bal: true, Code: hx(code), Gas: g, Expect: "inner-create-value", Op: int(vm.CREATE),
 				Note: "CREATE with endowment 5 of init code returning 1 byte"})
 			r.nontriv++
 		}
